@@ -264,6 +264,13 @@ func c18vars(log *[]string, empty bool) jet.VarMap {
 		return reflect.ValueOf(a.Runtime().Resolve(str(a, 0)).Kind().String())
 	})
 	vars.SetFunc("kindof", func(a jet.Arguments) reflect.Value { return reflect.ValueOf(a.Get(0).Kind().String()) })
+	vars.SetFunc("setv", func(a jet.Arguments) reflect.Value {
+		if err := a.Runtime().Set(str(a, 0), a.Get(1).Interface()); err != nil {
+			panic(err)
+		}
+		return none
+	})
+	vars.Set("iv3", 3).Set("iv0", 0).Set("sv", "7").Set("bv", true)
 	vars.Set("rv", "rv0")
 	vars.Set("nilm", map[string]int(nil)).Set("nils", []string(nil)).Set("nilp", (*int)(nil))
 	vars.Set("ifs", []interface{}{"ia", 7})
@@ -287,6 +294,22 @@ var c18directed = []struct{ src, want string }{
 	{`{{ try }}{{ x := "t" }}{{ letglobal("x", "TG") }}<{{ x }}>{{ end }}[{{ x }}]`, "<t>[TG]"},
 	{`{{ if true }}{{ x := "a" }}{{ if true }}{{ x := "b" }}{{ letglobal("x", "G2") }}{{ x }}{{ end }}{{ x }}{{ end }}{{ x }}`, "baG2"},
 	{`{{ if true }}{{ rv := "shadow" }}{{ letglobal("rv", "RG") }}{{ rv }}{{ end }}|{{ rv }}`, "shadow|RG"},
+}
+
+var c18twins = []struct{ name, api, syn string }{
+	// YieldBlock of a parameterless block opens no scope, like {{yield b()}}: what a function called from the block
+	// declares with Let lives in the innermost scope open at the call site
+	{"let-inside-a-yielded-block", `{{ import "/lib.jet" }}{{ if true }}{{ s := 0 }}{{ yieldblock("b", nil) }}[{{ isset(made) ? made : "unset" }}]{{ end }}[{{ isset(made) ? made : "unset" }}]`,
+		`{{ import "/lib.jet" }}{{ if true }}{{ s := 0 }}{{ yield b() }}[{{ isset(made) ? made : "unset" }}]{{ end }}[{{ isset(made) ? made : "unset" }}]`},
+	{"let-inside-a-block-yielded-with-context-in-a-range", `{{ import "/lib.jet" }}{{ range i := ints(0, 2) }}{{ isset(made) ? "S" : "U" }}{{ yieldblock("b", "c") }}{{ end }}`,
+		`{{ import "/lib.jet" }}{{ range i := ints(0, 2) }}{{ isset(made) ? "S" : "U" }}{{ yield b() "c" }}{{ end }}`},
+	{"set-inside-a-yielded-block", `{{ import "/lib.jet" }}{{ outerv := "o" }}{{ if true }}{{ yieldblock("bs", nil) }}{{ end }}[{{ outerv }}]`,
+		`{{ import "/lib.jet" }}{{ outerv := "o" }}{{ if true }}{{ yield bs() }}{{ end }}[{{ outerv }}]`},
+	// Set rebinds like '=', whatever the variable held before and however close the new value is to it
+	{"set-int-variable-to-a-float-with-the-same-integral-part", `{{ setv("iv3", 3.5) }}{{ iv3 }}|{{ iv3 * 2 }}|{{ setv("iv0", 0.75) }}{{ iv0 }}|{{ x := len("a") }}{{ setv("x", 1.9) }}{{ x }}`,
+		`{{ iv3 = 3.5 }}{{ iv3 }}|{{ iv3 * 2 }}|{{ iv0 = 0.75 }}{{ iv0 }}|{{ x := len("a") }}{{ x = 1.9 }}{{ x }}`},
+	{"set-variable-to-an-equal-looking-value-of-another-type", `{{ setv("iv3", "3") }}{{ iv3 + "x" }}|{{ setv("sv", 7) }}{{ sv + 1 }}|{{ setv("bv", 1) }}{{ bv + 1 }}`,
+		`{{ iv3 = "3" }}{{ iv3 + "x" }}|{{ sv = 7 }}{{ sv + 1 }}|{{ bv = 1 }}{{ bv + 1 }}`},
 }
 
 func c18n(tier string) int {
@@ -316,6 +339,30 @@ func c18run(c *fw.Ctx, idx int) {
 			return
 		}
 		c.Distinct(fmt.Sprintf("directed-letglobal|%d", idx/4))
+		return
+	}
+	if k := idx/4 - len(c18directed); idx%4 == 0 && k >= 0 && k < len(c18twins) {
+		// directed twins: the API form and the syntax form of one template render the same
+		d := c18twins[k]
+		c.Begin(idx, map[string]interface{}{"directed_twin": d.name, "api_form": d.api, "syntax_form": d.syn})
+		defer c.End()
+		lib := map[string]string{"/lib.jet": `{{ block b() }}<{{ let("made", "yes") }}>{{ end }}{{ block bs() }}<{{ set("outerv", "set-in-block") }}>{{ end }}`}
+		run := func(src string) jx.Res {
+			var log []string
+			files := map[string]string{"/main.jet": src}
+			for k, v := range lib {
+				files[k] = v
+			}
+			return jx.Run(files, "/main.jet", c18vars(&log, false), "root-ctx", jx.NoEscape)
+		}
+		ra, rb := run(d.api), run(d.syn)
+		c.Eval(2)
+		c.Count("directed_twins", 1)
+		if ra.Failed() || rb.Failed() || ra.Out != rb.Out || ra.Out == "" {
+			c.Violation("c18:directed-twin:"+d.name, "", fmt.Sprintf("API form rendered    %s\nsyntax form rendered %s", ra, rb))
+			return
+		}
+		c.Distinct("directed-twin|" + d.name)
 		return
 	}
 	g := &c18gen{r: r, feat: map[string]bool{}, allowFail: idx%2 == 0}
